@@ -49,13 +49,13 @@ def _stored_weight(ctx, store, voter):
 class Step(VC):
     property_id = "C06"
 
-    def __init__(self, crate, variant, after=None):
-        self.crate, self.variant, self.after = crate, variant, after
+    def __init__(self, crate, variant, after=None, large=0):
+        self.crate, self.variant, self.after, self.large = crate, variant, after, large
         self.extra_crates = ("cw3",)
-        self.name = f"C06.{'fixed' if crate == FIXED else 'flex'}." + (f"chain.{after}.then." if after else "") + variant
+        self.name = f"C06.{'fixed' if crate == FIXED else 'flex'}." + (f"chain.{after}.then." if after else "") + variant + (f"[{large} members]" if large else "")
 
     def run(self, I, ctx, ob):
-        f = ms_step(I, ctx, ob, self.crate, self.variant, after=self.after)
+        f = ms_step(I, ctx, ob, self.crate, self.variant, after=self.after, large=self.large)
         if f.outcome != "Ok": return
         v = self.variant
         blk = f.blk
@@ -124,6 +124,7 @@ class Step(VC):
 def vcs(tier):
     out = [FixedBase(2)] + [Step(FIXED, v) for v in ("Propose", "Vote", "Execute", "Close")]
     out += [Step(FLEX, v) for v in ("Propose", "Vote", "Execute", "Close", "MemberChangedHook")]
+    out.append(Step(FLEX, "Propose", large=12))          # a group bigger than a ListMembers page
     if tier == "thorough": out.append(FixedBase(3))
     # two-call chains on one proposal (thorough): the second call is judged on the state the first really left behind
     if tier == "thorough":
